@@ -96,6 +96,10 @@ func Registry(prop, tier string) []UniverseDef {
 	if prop != "C04" {
 		out = append(out, NumericRegistry(tier)...)
 	}
+	if prop == "C01" || prop == "C06" || prop == "C15" {
+		// the map behaves the same whatever the value type: overwrite-rich closures with slices, `any`, odd sizes
+		out = append(out, ValueTypeUniverses()...)
+	}
 	if prop == "C01" {
 		add(func() *Universe { return NewAlphaUniverse(NulSpec(), "string") }, "alpha[string]/NUL")
 		// byte-slice keys handed over in one reused buffer (keys are told apart by content, not by buffer identity)
